@@ -139,7 +139,10 @@ def corpus():
           mk(["chain", [["trend", 1], ["chain", [["moment"], ["knn", 2, "mean"]]]]], [es, ns], [d1], None, q, "corpus-nested"),
           mk(["vector", [["trend", 1], ["chain", [["trend", 0], ["knn", 1, "mean"]]]]], [es, ns], [d1, d2], [w1, w1[::-1]], q, "corpus-vector"),
           mk(["chain", [["moment"], ["vector", [["trend", 1], ["moment"]]]]], [es, ns], [d1, d2], None, q, "corpus-chain-of-vector"),
-          mk(["trend", 1], [es, ns], [d1], [w1], q, "corpus-filter-trend")]
+          mk(["trend", 1], [es, ns], [d1], [w1], q, "corpus-filter-trend"),
+          mk(["chain", [["trend", 1], ["moment"], ["knn", 1, "mean"]]], [es, ns], [[float(int(3 * v)) for v in d2]], None, q, "corpus-chain-intdata"),
+          mk(["vector", [["chain", [["trend", 1], ["moment"]]], ["trend", 0]]], [es, ns], [d1, [float(int(3 * v)) for v in d2]], None, q,
+             "corpus-vector-intdata")]
     return cs
 
 
@@ -152,13 +155,16 @@ def generate(rng, tier):
         ncomp = 1 if rng.random() < 0.65 else 2
         weighted = rng.random() < 0.4
         data = [B.values(rng, npts) for _ in range(ncomp)]
+        intdata = rng.random() < 0.2
+        if intdata:
+            data = [[float(rng.randint(-60, 60)) for _ in range(npts)] for _ in range(ncomp)]
         weights = [B.pos_weights(rng, npts) for _ in range(ncomp)] if weighted else None
         q = [[reg[0] + (reg[1] - reg[0]) * k / 4.0 for k in range(5)], [reg[2] + (reg[3] - reg[2]) * ((3 * k) % 5) / 4.0 for k in range(5)]]
         if ncomp == 2 and rng.random() < 0.3:
             spec = ["vector", [["chain", rand_steps(rng, reg, npts, 1, weighted, 1)] if rng.random() < 0.5 else rand_gridder1(rng, 2) for _ in range(2)]]
         else:
             spec = ["chain", rand_steps(rng, reg, npts, ncomp, weighted)]
-        cs.append(mk(spec, [es, ns], data, weights, q, spec[0] + ("-2comp" if ncomp == 2 else "")))
+        cs.append(mk(spec, [es, ns], data, weights, q, spec[0] + ("-2comp" if ncomp == 2 else "") + ("-intdata" if intdata else "")))
     return cs
 
 
@@ -166,6 +172,9 @@ def _args(coords, data, weights):
     key = repr(data[0][:3])
     cs = tuple(C.mkarr(c, [len(c)], f"{key}c{i}") for i, c in enumerate(coords))
     ds = tuple(C.mkarr(d, [len(d)], f"{key}d{i}") for i, d in enumerate(data))
+    if all(float(v).is_integer() for d in data for v in d):
+        # integer-valued data are handed over with an integer dtype (elevations, counts): composition must not depend on it
+        ds = tuple(np.asarray(d).astype("int64" if (len(data[0]) + i) % 2 else "int32") for i, d in enumerate(ds))
     ws = None if weights is None else tuple(C.mkarr(w, [len(w)], f"{key}w{i}") for i, w in enumerate(weights))
     return cs, (ds[0] if len(ds) == 1 else ds), (None if ws is None else (ws[0] if len(ws) == 1 else ws))
 
